@@ -168,6 +168,9 @@ type Net struct {
 	Decide func(e *Entry) *Answer
 	// OnDone is called after the default handling (state already changed).
 	OnDone func(e *Entry)
+	// OnReturn is called when RoundTrip returns for a request that had arrived (every path: answer,
+	// transport error, cancelled context); together with OnArrive it brackets "request in flight".
+	OnReturn func(e *Entry)
 }
 
 func NewNet() *Net { return &Net{Hosts: map[string]*Host{}, start: time.Now()} }
@@ -277,6 +280,9 @@ func (n *Net) RoundTrip(req *http.Request) (*http.Response, error) {
 	}
 	e := &Entry{Method: req.Method, Scheme: req.URL.Scheme, Host: req.URL.Host, Path: req.URL.Path, Query: req.URL.Query(), Header: req.Header.Clone(), Body: body}
 	n.classify(e)
+	if n.OnReturn != nil {
+		defer n.OnReturn(e)
+	}
 	if n.OnArrive != nil {
 		n.OnArrive(e)
 	}
